@@ -37,8 +37,8 @@ TRUSTED_BASE = [
     '(compared through every legend without explicit colours)',
     'float vs exact arithmetic: theorems are over Rat; on random floats the colour channels were equal '
     'except at counted rounding ties (coverage.input_distribution near_tie_rounding)',
-    'Legend._frange accumulates floats; the model uses exact arithmetic (the float effect is the known '
-    'finding C15-text-positions-float-accumulation, found by the oracle)',
+    'graphic.py: GraphicContainer is modelled without a data type (no unit-description dictionary); '
+    'ladybug_geometry points/planes are not modelled',
 ]
 ASSUMPTIONS = ['values, domains and legend bounds are finite numbers (no NaN/inf)',
                'segment dimensions are positive (enforced by the setters)']
@@ -191,6 +191,47 @@ def impl_legend(c):
         _sec(crange),
     ]
     return ' | '.join(secs)
+
+
+def graphic_line(c, box):
+    return 'graphic %s %s' % (rats(box), legend_line(c)[len('legend '):])
+
+
+def impl_graphic(c, box):
+    from ladybug.graphic import GraphicContainer
+    from ladybug_geometry.geometry3d.pointvector import Point3D
+    try:
+        gc = GraphicContainer(list(c['vals']), Point3D(box[0], box[1], 0), Point3D(box[2], box[3], 0),
+                              make_par(c))
+    except Exception as e:
+        return 'err:' + err_name(e)
+    lp = gc.legend_parameters
+    return ' | '.join([
+        'ok ' + _sec(lambda: show_colors(gc.value_colors)),
+        _sec(lambda: show_colors(gc.legend.segment_colors)),
+        '%s %s %s' % (rat(lp.segment_height), rat(lp.segment_width), rat(lp.text_height)),
+        _sec(lambda: str(len(gc.legend.segment_text_location)))])
+
+
+def compare_graphic(ctx, cases):
+    """`graphic` op: colours and counts bit for bit, the derived dimensions within 1e-12."""
+    drv = ctx.driver()
+    lines = [graphic_line(c, box) for c, box in cases]
+    outs = drv.run(lines)
+    for (c, box), line, mo in zip(cases, lines, outs):
+        io = impl_graphic(c, box)
+        ctx.compared += 1
+        ctx.count('op:graphic_' + c['kind'])
+        ctx.case(('graphic', line), nontrivial=not io.startswith('err:'))
+        if io.startswith('err:'):
+            ctx.count('err_results')
+        if mo == io:
+            continue
+        ms, is_ = mo.split(' | '), io.split(' | ')
+        if len(ms) == 4 and len(is_) == 4 and ms[0] == is_[0] and ms[1] == is_[1] and ms[3] == is_[3] \
+                and _nums_close(ms[2], is_[2]):
+            continue
+        ctx.disagree('graphic', {'case': c, 'box': list(box), 'line': line}, mo, io)
 
 
 # ---------------------------------------------------------------------------------------------
@@ -353,14 +394,8 @@ def compare_legend(ctx, cases):
                 continue
             name = ['head', 'numbers', 'segment_colors', 'value_colors', 'text', 'text_points',
                     'segment_length', 'mesh', 'color_range'][k]
-            if name == 'text_points':
-                if not step_exact(c):
-                    # Legend._frange accumulates an inexact float step: the number of points is not
-                    # determined by exact arithmetic (known finding, judged by the oracle)
-                    ctx.count('text_points_not_compared_inexact_step')
-                    continue
-                if _nums_close(a, b):
-                    continue        # default text height is segment_height * 0.33 (inexact float)
+            if name == 'text_points' and _nums_close(a, b):
+                continue            # default text height is segment_height * 0.33 (inexact float)
             if name == 'numbers' and c['kind'] == 'cat' and _nums_close(a, b):
                 continue            # categorised segment numbers are not used for colours or labels
             if c['exact']:
@@ -584,8 +619,6 @@ def gen_legend_defaults(ctx, rng, exact, cell=None):
         # categorised parameters take min/max/count from their own domain, never from the data
         m = rng.choice([1, 2, 3])
         dom = sorted(set(base + rng.randrange(-8, 24) * 0.5 for _ in range(m)))
-        if len(dom) == 1 and any(v == dom[0] for v in vals):
-            dom = [dom[0] - 0.125]                         # keep off the one-boundary finding
         c.update({'dom': dom, 'cols': gen_colors(rng, len(dom) + 1), 'names': None, 'cc': False,
                   'ils': None, 'vals': vals, 'exact': True})
         return c
@@ -673,15 +706,11 @@ def gen_legend(ctx, rng, exact, rare_known=False):
         if not exact:
             vals += [rng.uniform(dom[0] - span, dom[-1] + span) for _ in range(5)]
         c['vals'] = vals
-        if rare_known and m == 1 and rng.random() > 0.01:
-            vals = [v for v in vals if v != dom[0]]
         c['vals'] = vals
         shown = list(dom)
         if rng.random() < 0.3:
             rng.shuffle(shown)
         c['dom'] = shown
-        if rare_known and not step_exact(c) and rng.random() > 0.01:
-            c['sh'] = c['sw'] = c['th'] = rng.choice([0.5, 1, 2])
         ctx.count('legend:cat:domain_len:%d' % m)
         ctx.count('legend:cat:%s' % ('cont_colors' if c['cc'] else 'segmented'))
         return c
@@ -755,8 +784,6 @@ def gen_legend(ctx, rng, exact, rare_known=False):
             c['vals'] = [0, 1, -1]
             if (n - 1) not in (1, 2, 4, 8, 16) or (count - 1) not in (0, 1, 2, 4, 8, 16):
                 c['exact'] = False
-    if rare_known and not step_exact(c) and rng.random() > 0.01:
-        c['sh'] = c['sw'] = c['th'] = rng.choice([0.5, 1, 2])
     ctx.count('legend:plain:count:%s' % ('default' if count is None else count))
     ctx.count('legend:plain:minmax:%s%s' % ('g' if c['min'] is not None else 'd',
                                               'g' if c['max'] is not None else 'd'))
@@ -814,6 +841,20 @@ def correspondence(ctx):
             cases.append(_full_legend_case(inp))
     cases += [gen_legend(ctx, rng, False) for _ in range(ctx.n(2000, 20000))]
     compare_legend(ctx, cases)
+    # graphic containers over the exact legends (their own legend + box-derived dimensions)
+    gcases = []
+    for c in cases:
+        if c['exact'] and rng.random() < 0.35:
+            r = rng.random()
+            if r < 0.8:
+                box = (float(rng.randrange(-5, 5)), float(rng.randrange(-5, 5)))
+                box = box + (box[0] + rng.choice([1, 2, 8, 16, 10, 0.5]), box[1] + rng.choice([1, 4, 8, 32, 3]))
+            elif r < 0.9:
+                box = (0.0, 0.0, rng.choice([0.0, 8.0]), rng.choice([0.0, 4.0]))     # flat / empty boxes
+            else:
+                box = (4.0, 4.0, 0.0, 0.0)                                            # inverted box
+            gcases.append((c, box))
+    compare_graphic(ctx, gcases)
     # '%.nf' formatting of exact values
     fc = []
     for _ in range(ctx.n(1500, 30000)):
@@ -1112,13 +1153,14 @@ def check_case(op, inp):
 
 replay = check_case
 
-# fixed corpus: literal cases incl. the example inputs of the known findings
+# fixed corpus: literal cases incl. the inputs of the repaired defects (one-boundary domains,
+# float-accumulated label positions) and the default-resolution corners
 CORPUS = [
     ('range', {'cols': [[75, 107, 169], [245, 239, 103], [234, 38, 0]], 'dom': [100, 2000], 'cont': True}),
     ('range', {'cols': [[0, 0, 255], [0, 255, 0], [255, 0, 0]], 'dom': [300, 2000], 'cont': False}),
     ('range', {'cols': [[0, 0, 0], [255, 255, 255]], 'dom': [5, 5], 'cont': True}),
     ('range', {'cols': [[10, 200, 30], [250, 0, 30], [0, 0, 31], [9, 9, 9]], 'dom': [-1, 0, 0.5, 8], 'cont': True}),
-    ('range', {'cols': [[0, 0, 255], [0, 255, 0]], 'dom': [100], 'cont': False}),          # known finding
+    ('range', {'cols': [[0, 0, 255], [0, 255, 0]], 'dom': [100], 'cont': False}),          # repaired defect
     ('legend', {'kind': 'plain', 'vals': [0, 1, 2, 3, 4, 5, 6, 7, 8, 9], 'count': 6, 'cl': False,
                 'vert': True, 'dc': 2}),
     ('legend', {'kind': 'plain', 'vals': [3, 3], 'cl': False, 'vert': True, 'dc': 2}),
@@ -1143,11 +1185,11 @@ CORPUS = [
     ('legend', {'kind': 'cat', 'vals': [5, 5, 5], 'dom': [2, 8], 'cols': [[0, 0, 255], [0, 255, 0], [255, 0, 0]],
                 'cl': False, 'vert': True, 'dc': 2}),
     ('legend', {'kind': 'cat', 'vals': [50, 100, 150], 'dom': [100], 'cols': [[0, 0, 255], [0, 255, 0]],
-                'cl': False, 'vert': True, 'dc': 2}),                                      # known finding
+                'cl': False, 'vert': True, 'dc': 2}),                                      # repaired defect
     ('legend', {'kind': 'plain', 'vals': [0, 5], 'min': 0, 'max': 5, 'count': 6, 'cl': False,
-                'vert': True, 'dc': 2, 'sh': 0.1}),                                        # known finding
+                'vert': True, 'dc': 2, 'sh': 0.1}),                                        # repaired defect
     ('legend', {'kind': 'plain', 'vals': [0, 5], 'min': 0, 'max': 5, 'count': 6, 'cl': False,
-                'vert': False, 'dc': 2, 'sw': 0.1}),                                       # known finding
+                'vert': False, 'dc': 2, 'sw': 0.1}),                                       # repaired defect
 ]
 
 
@@ -1178,10 +1220,6 @@ def _oracle_cases(ctx):
                 continue
         else:
             m = n if cont else rng.randrange(1, n)
-            if m == 1 and rng.random() > 0.02:
-                if n < 3:
-                    continue
-                m = 2                                      # one-boundary ranges: recorded finding
             dom = sorted(set([lo] + [lo + width * rng.random() for _ in range(m - 1)]))
             if cont and len(dom) != n:
                 continue
@@ -1200,7 +1238,7 @@ def _oracle_cases(ctx):
                 c['cols'] = [list(x) for x in c['cols']]
             yield 'legend', c
     for _ in range(8000 if big else 1500):
-        c = gen_legend(ctx, rng, rng.random() < 0.4, rare_known=True)
+        c = gen_legend(ctx, rng, rng.random() < 0.4)
         c = {k: v for k, v in c.items() if k != 'exact'}
         if c.get('cols') is not None:
             c['cols'] = [list(x) for x in c['cols']]
@@ -1213,17 +1251,21 @@ def oracle(ctx):
     run_oracle_cases(ctx, _oracle_cases(ctx), check_case)
 
 
-LEVEL_TEXT = ('Machine-checked Lean 4 theorems over an executable Rat model of ColorRange and Legend: for every '
-              'colour list, domain and value: stop exactness, every channel between the neighbouring stop '
-              'channels, monotone movement in the value (Python round is monotone), clamping beyond the ends, '
-              'segmented interval colour, zero-width behaviour, 2-value domain re-mapped to evenly spaced stops; '
-              'for every legend: segment numbers min + i(max-min)/(n-1) with first = min and last = max, all '
-              'per-segment lists of length n, mesh cells n / n-1, value colours = map of the colour range, '
-              'defaults from the data, categorised legends use their own domain/colours/names. The model is '
-              'compared with the real classes on exact (bit for bit) and float (near-tie rule) streams.')
+LEVEL_TEXT = ('Machine-checked Lean 4 theorems (28) over an executable Rat model of ColorRange, Legend and '
+              'GraphicContainer: for every colour list, domain and value: stop exactness, every channel between '
+              'the neighbouring stop channels, monotone movement in the value (Python round is monotone), '
+              'clamping beyond the ends, segmented interval colour, zero-width and one-boundary domains, '
+              'duplicated stops (weakly increasing domains: the exact blend on every half-open interval, the '
+              'first of equal stops wins, every in-range value is covered), fewer stops than colours, 2-value '
+              'domain re-mapped to evenly spaced stops; for every legend: segment numbers min + i(max-min)/(n-1) '
+              'with first = min and last = max, all per-segment lists of length n, mesh cells n / n-1, label '
+              'content (round(number, decimals) at token level, < > marks, ordinal dictionary), value colours = '
+              'map of the colour range, defaults from the resolved bounds, categorised legends use their own '
+              'domain/colours/names, a GraphicContainer colours like its own legend. The model is compared with '
+              'the real classes on exact (bit for bit) and float (near-tie rule) streams.')
 LEVEL_NOTE = ('Trusted: Lean kernel; axioms propext/Classical.choice/Quot.sound only; the correspondence run '
               '(agreement on generated inputs only); exact-vs-float arithmetic (rounding ties counted, not '
               'proved); ladybug_geometry mesh counts; the hand-copied default colour set; text formatting is '
-              'compared, only its length is proved.')
+              'proved at token level (sign, rounded magnitude), its characters are compared only.')
 TECHNIQUE = ('Lean 4 proof (induction on the interval search, monotonicity of round-half-even on Rat, linear '
              'arithmetic) about a model tied to color.py/legend.py by differential correspondence')
